@@ -88,6 +88,8 @@ FORMS = {
     'EMIT': (I + 'tezos.py', 'EmitInstruction'),
     # phase B (first half)
     'PACK': (I + 'generic.py', 'PackInstruction'),
+    # extension 3, phase 1
+    'UNPACK': (I + 'generic.py', 'UnpackInstruction'),
 }
 
 # module-level helper functions the instruction classes call: digest key -> (file, function)
@@ -97,6 +99,9 @@ HELPERS = {
     'compare': (I + 'compare.py', 'compare'), 'execute_zero_compare': (I + 'compare.py', 'execute_zero_compare'),
     'execute_hash': (I + 'crypto.py', 'execute_hash'), 'dispatch_types': (I + 'base.py', 'dispatch_types'),
     'get_entrypoint_type': (I + 'tezos.py', 'get_entrypoint_type'),
+    # extension 3: how `from_micheline_value` takes an expression apart
+    'parse_micheline_value': ('michelson/micheline.py', 'parse_micheline_value'),
+    'parse_micheline_literal': ('michelson/micheline.py', 'parse_micheline_literal'),
 }
 
 # methods: digest key -> (file, class, method)
@@ -121,6 +126,16 @@ METHODS = {
     'MichelsonType.pack': ('michelson/types/base.py', 'MichelsonType', 'pack'),
     'PairType.to_micheline_value': ('michelson/types/pair.py', 'PairType', 'to_micheline_value'),
     'MapType.to_micheline_value': ('michelson/types/map.py', 'MapType', 'to_micheline_value'),
+    # extension 3, phase 1: what UNPACK calls (`unforge_micheline` itself is property C05's mirror)
+    'MichelsonType.unpack': ('michelson/types/base.py', 'MichelsonType', 'unpack'),
+    **{f'{c}.from_micheline_value': (f'michelson/types/{f}.py', c, 'from_micheline_value')
+       for c, f in (('UnitType', 'core'), ('BoolType', 'core'), ('IntType', 'core'), ('NatType', 'core'), ('StringType', 'core'),
+                    ('BytesType', 'core'), ('TimestampType', 'domain'), ('PairType', 'pair'), ('OptionType', 'option'),
+                    ('OrType', 'sum'), ('ListType', 'list'), ('SetType', 'set'), ('MapType', 'map'))},
+    'MapType.parse_micheline_value': ('michelson/types/map.py', 'MapType', 'parse_micheline_value'),
+    'SetType.check_constraints': ('michelson/types/set.py', 'SetType', 'check_constraints'),
+    'MapType.check_constraints': ('michelson/types/map.py', 'MapType', 'check_constraints'),
+    'StringType.from_value': ('michelson/types/core.py', 'StringType', 'from_value'),
 }
 
 TYPE_PRIMS = {  # runtime class -> prim, re-read from the class keyword `prim=` below
@@ -1774,6 +1789,177 @@ def to_micheline_value(self, mode='readable', lazy_diff=False):
     'MapType.to_micheline_value': '''
 def to_micheline_value(self, mode='readable', lazy_diff=False):
     return [{'prim': 'Elt', 'args': [x.to_micheline_value(mode=mode, lazy_diff=lazy_diff) for x in elt]} for elt in self]
+''',
+    # extension 3, phase 1: UNPACK (the repaired bodies: C01-5 annotations, C01-6 n-ary Pair, C01-7 printable strings)
+    'UNPACK': '''
+@classmethod
+def execute(cls, stack, stdout, context):
+    a = stack.pop1()
+    a.assert_type_equal(BytesType)
+    try:
+        some = cls.args[0].unpack(bytes(a))
+        res = OptionType.from_some(some)
+    except Exception as e:
+        res = OptionType.none(cls.args[0])
+    stack.push(res)
+    return cls(stack_items_added=1)
+''',
+    'parse_micheline_value': '''
+def parse_micheline_value(val_expr, handlers):
+    assert isinstance(val_expr, dict)
+    prim, args = (val_expr.get('prim'), val_expr.get('args', []))
+    assert not val_expr.get('annots')
+    expected = ' or '.join(map(lambda x: f'{x[0]} ({x[1]} args)', handlers))
+    assert (prim, len(args)) in handlers
+    handler = handlers[prim, len(args)]
+    return handler(args)
+''',
+    'parse_micheline_literal': '''
+def parse_micheline_literal(val_expr, handlers):
+    assert isinstance(val_expr, dict)
+    try:
+        core_type, value = next(((k, v) for k, v in val_expr.items() if k[0] != '_' and k != 'annots'))
+    except StopIteration as e:
+        raise Exception(f"Can't parse literal `{val_expr}`") from e
+    expected = ' or '.join(map(lambda x: f'`{x}`', handlers))
+    if core_type not in handlers:
+        raise Exception(f'Expected one of {expected}, got {core_type}')
+    handler = handlers[core_type]
+    return handler(value)
+''',
+    'MichelsonType.unpack': '''
+@classmethod
+def unpack(cls, data):
+    assert cls.is_packable()
+    assert data.startswith(b'\\x05')
+    val_expr = unforge_micheline(data[1:])
+    return cls.from_micheline_value(val_expr)
+''',
+    'UnitType.from_micheline_value': '''
+@classmethod
+def from_micheline_value(cls, val_expr):
+    parse_micheline_value(val_expr, {('Unit', 0): lambda x: x})
+    return cls()
+''',
+    'BoolType.from_micheline_value': '''
+@classmethod
+def from_micheline_value(cls, val_expr):
+    value = parse_micheline_value(val_expr, {('False', 0): lambda x: False, ('True', 0): lambda x: True})
+    return cls(value)
+''',
+    'IntType.from_micheline_value': '''
+@classmethod
+def from_micheline_value(cls, val_expr):
+    value = parse_micheline_literal(val_expr, {'int': int})
+    return cls(value)
+''',
+    'NatType.from_micheline_value': '''
+@classmethod
+def from_micheline_value(cls, val_expr):
+    value = parse_micheline_literal(val_expr, {'int': int})
+    return cls.from_value(value)
+''',
+    'StringType.from_micheline_value': '''
+@classmethod
+def from_micheline_value(cls, val_expr):
+    value = parse_micheline_literal(val_expr, {'string': str})
+    return cls.from_value(value)
+''',
+    'BytesType.from_micheline_value': '''
+@classmethod
+def from_micheline_value(cls, val_expr):
+    value = parse_micheline_literal(val_expr, {'bytes': bytes.fromhex})
+    return cls(value)
+''',
+    'TimestampType.from_micheline_value': '''
+@classmethod
+def from_micheline_value(cls, val_expr):
+    value = parse_micheline_literal(val_expr, {'int': int, 'string': optimize_timestamp})
+    return cls.from_value(value)
+''',
+    'PairType.from_micheline_value': '''
+@classmethod
+def from_micheline_value(cls, val_expr):
+    if isinstance(val_expr, dict):
+        prim, args = (val_expr.get('prim'), val_expr.get('args', []))
+        assert prim == 'Pair'
+        assert not val_expr.get('annots')
+    elif isinstance(val_expr, list):
+        args = val_expr
+    else:
+        raise AssertionError(f'either dict(prim) or list expected, got {type(val_expr).__name__}')
+    if len(args) == 2:
+        value = tuple((cls.args[i].from_micheline_value(arg) for i, arg in enumerate(args)))
+    elif len(args) > 2:
+        assert issubclass(cls.args[1], PairType)
+        value = (cls.args[0].from_micheline_value(args[0]), cls.args[1].from_micheline_value(args[1:]))
+    else:
+        raise AssertionError(f'at least two args expected, got {len(args)}')
+    return cls(value)
+''',
+    'OptionType.from_micheline_value': '''
+@classmethod
+def from_micheline_value(cls, val_expr):
+    item = parse_micheline_value(val_expr, {('Some', 1): lambda x: cls.args[0].from_micheline_value(x[0]), ('None', 0): lambda x: None})
+    return cls(item)
+''',
+    'OrType.from_micheline_value': '''
+@classmethod
+def from_micheline_value(cls, val_expr):
+    value = parse_micheline_value(val_expr, {('Left', 1): lambda x: (cls.args[0].from_micheline_value(x[0]), Undefined), ('Right', 1): lambda x: (Undefined, cls.args[1].from_micheline_value(x[0]))})
+    return cls(value)
+''',
+    'ListType.from_micheline_value': '''
+@classmethod
+def from_micheline_value(cls, val_expr):
+    assert isinstance(val_expr, list)
+    items = list(map(cls.args[0].from_micheline_value, val_expr))
+    return cls(items)
+''',
+    'SetType.from_micheline_value': '''
+@classmethod
+def from_micheline_value(cls, val_expr):
+    assert isinstance(val_expr, list)
+    items = list(map(cls.args[0].from_micheline_value, val_expr))
+    cls.check_constraints(items)
+    return cls(items)
+''',
+    'MapType.from_micheline_value': '''
+@classmethod
+def from_micheline_value(cls, val_expr):
+    return cls(cls.parse_micheline_value(val_expr))
+''',
+    'MapType.parse_micheline_value': '''
+@classmethod
+def parse_micheline_value(cls, val_expr):
+    assert isinstance(val_expr, list)
+
+    def parse_elt(elt_expr):
+        return parse_micheline_value(elt_expr, {('Elt', 2): lambda x: tuple((cls.args[i].from_micheline_value(arg) for i, arg in enumerate(x)))})
+    items = list(map(parse_elt, val_expr))
+    cls.check_constraints(items)
+    return items
+''',
+    'SetType.check_constraints': '''
+@classmethod
+def check_constraints(cls, items):
+    assert len(set(items)) == len(items)
+    assert items == sorted(items)
+''',
+    'MapType.check_constraints': '''
+@classmethod
+def check_constraints(cls, items):
+    keys = list(map(lambda x: x[0], items))
+    assert len(set(keys)) == len(keys)
+    assert keys == sorted(keys)
+''',
+    'StringType.from_value': '''
+@classmethod
+def from_value(cls, value):
+    assert isinstance(value, str)
+    assert len(value) == len(value.encode())
+    assert all((c == '\\n' or ' ' <= c <= '~' for c in value))
+    return cls(value)
 ''',
 }
 
